@@ -368,3 +368,114 @@ def strip_types(t):
     if not isinstance(t, dict):
         return t
     return {k: (strip_types(v) if isinstance(v, dict) else v) for k, v in t.items() if k not in ('t', 'negzero')}
+
+
+# ------------------------------------------------------------------------------------------------
+# symbolic coefficients (coniclifts Expressions): C13, C16, C04
+# ------------------------------------------------------------------------------------------------
+
+class SymEnv:
+    """Variables of one case.  `sizes` = list of Variable sizes; scalar variables are numbered in
+    declaration order (vid = position in the concatenation)."""
+    _ctr = [0]
+
+    def __init__(self, sizes, values=None):
+        import sageopt.coniclifts as cl
+        self.vars = []
+        self.scalars = []      # vid -> ScalarExpression-valued 0-d access
+        self.id2vid = {}
+        for k, sz in enumerate(sizes):
+            SymEnv._ctr[0] += 1
+            v = cl.Variable(shape=(sz,), name='vv%d_%d' % (SymEnv._ctr[0], k))
+            self.vars.append(v)
+            for i in range(sz):
+                self.id2vid[v.scalar_variable_ids[i]] = len(self.scalars)
+                self.scalars.append(v[i])
+        if values is not None:
+            self.set_values(values)
+
+    def set_values(self, values):
+        pos = 0
+        for v in self.vars:
+            v.value = np.array([float(x) if x is not None else np.nan for x in values[pos:pos + v.size]])
+            pos += v.size
+
+    def lin(self, spec):
+        """spec: rational string/int, or {'off': q, 'co': [[vid, q], ...]} -> ScalarExpression or float"""
+        import sageopt.coniclifts as cl
+        if not isinstance(spec, dict):
+            return float(F(spec))
+        e = cl.Expression([float(F(spec['off']))])[0]
+        for vid, q in spec['co']:
+            e = e + float(F(q)) * self.scalars[vid]
+        return e
+
+    def lin_json(self, se):
+        """canonical {'off', 'co'} of a ScalarExpression / number (zero coefficients dropped, sorted by vid)"""
+        from sageopt.coniclifts.base import ScalarExpression, ScalarVariable
+        if isinstance(se, np.ndarray) and se.dtype == object:
+            se = se.item()
+        if not isinstance(se, ScalarExpression):
+            return {'off': fr(se), 'co': []}
+        acc = {}
+        for a, c in se.atoms_to_coeffs.items():
+            if not isinstance(a, ScalarVariable):
+                raise AssertionError('nonlinear atom in a coefficient')
+            vid = self.id2vid[a.id]
+            acc[vid] = acc.get(vid, F(0)) + F(float(c))
+        return {'off': fr(se.offset), 'co': [[k, frac_str(v)] for k, v in sorted(acc.items()) if v != 0]}
+
+
+def build_sym(t, env):
+    """like `build`, for trees with symbolic leaves"""
+    import sageopt.coniclifts as cl
+    from sageopt.symbolic.signomials import Signomial
+    from sageopt.symbolic.polynomials import Polynomial
+    k = t['k']
+    if k in ('num', 'sig', 'dict'):
+        return build(t)
+    if k == 'sx':
+        return env.lin(t['v'])
+    if k == 'sigL':
+        cls = Polynomial if t['poly'] else Signomial
+        alpha = np.array([[float(F(v)) for v in r] for r in t['alpha']], dtype=float).reshape(len(t['c']), t['n'])
+        if t.get('purevar') is not None:
+            c = env.vars[t['purevar']]          # a Variable object itself as coefficient vector
+        else:
+            c = cl.Expression([env.lin(s) for s in t['c']])
+        return cls(alpha, c)
+    if k == 'neg':
+        return -build_sym(t['l'], env)
+    if k == 'wz':
+        return build_sym(t['l'], env).without_zeros()
+    if k == 'sum':
+        fs = [build_sym(x, env) for x in t['fs']]
+        return type(fs[0]).sum(fs) if hasattr(fs[0], 'alpha') else Signomial.sum(fs)
+    l, r = build_sym(t['l'], env), build_sym(t['r'], env)
+    if k == 'add':
+        return l + r
+    if k == 'sub':
+        return l - r
+    if k == 'mul':
+        return l * r
+    raise ValueError(k)
+
+
+def out_json_sym(res, env):
+    from sageopt.symbolic.signomials import Signomial
+    from sageopt.symbolic.polynomials import Polynomial
+    if isinstance(res, Signomial):
+        c = res.c
+        cs = [env.lin_json(ci) for ci in (c.flat if hasattr(c, 'flat') else c)]
+        return {'poly': isinstance(res, Polynomial), 'n': int(res.n), 'alpha': mat_json(res.alpha), 'c': cs}
+    return {'sc': env.lin_json(res)}
+
+
+def lin_spec(rng, nvars, p_const=0.3):
+    """random affine form over vids < nvars"""
+    if nvars == 0 or rng.random() < p_const:
+        return {'off': frac_str(F(rng.randint(-3, 3))), 'co': []}
+    k = rng.randint(1, min(3, nvars))
+    vids = sorted(rng.sample(range(nvars), k))
+    return {'off': frac_str(F(rng.choice([0, 0, 1, -2]))),
+            'co': [[v, frac_str(F(rng.choice([-2, -1, 1, 2, 3]), rng.choice([1, 1, 2])))] for v in vids]}
